@@ -53,7 +53,13 @@ fn drive_rng<K: Kmer, I: Iterator<Item = K> + ExactSizeIterator>(
                 3 => remaining.saturating_sub(1),
                 4 => remaining,
                 5 => remaining + 1 + c.rng.below(20),
-                6 => usize::MAX - c.rng.below(3),
+                6 => match c.rng.below(4) {
+                    0 => usize::MAX - c.rng.below(3),
+                    // skips beyond 2^32 whose low 32 bits are a small (in-range looking) number
+                    1 => (1usize << 32) + c.rng.below(remaining + 2),
+                    2 => (1usize << 40) + c.rng.below(3),
+                    _ => (1usize << 32) * (1 + c.rng.below(1000)) + c.rng.below(remaining + 1),
+                },
                 _ => c.rng.below(remaining + 2),
             };
             if n > 4 {
@@ -196,8 +202,9 @@ fn c18_case<K: Kmer + Send + Sync>(c: &mut Case, gc: &GCase) -> Result<(), Strin
     let nn = c.rng.range(1, 5);
     let mut b: BaseGraph<K, u8> = BaseGraph::new(true);
     let mut seen: BTreeSet<S> = BTreeSet::new();
-    for _ in 0..nn {
-        let len = k + *c.rng.pick(&[0usize, 1, 4, 5, 6, 12, 30, 70]);
+    let want_long = !c.lane_miri && k >= 16 && c.idx % 300 == 11;
+    for ni in 0..nn {
+        let len = k + if want_long && ni == 0 { c.count("graphs_with_node_of_more_than_65536_kmers", 1); 65_530 + c.rng.below(5000) } else { *c.rng.pick(&[0usize, 1, 4, 5, 6, 12, 30, 70]) };
         let s = c.rng.bases(len, 4);
         if s.windows(k).all(|w| !seen.contains(w)) && s.windows(k).collect::<BTreeSet<_>>().len() == len - k + 1 {
             for w in s.windows(k) {
@@ -339,6 +346,7 @@ pub fn run_c18(ctx: &Ctx) {
         ctx.require("large_mphf_kmers", 100_000);
         ctx.require("concurrent_long_skips", 1000);
         ctx.require("skips_reaching_past_the_end", 1000);
+        ctx.require("graphs_with_node_of_more_than_65536_kmers", 3);
         ctx.require("long_skips", 1000);
         ctx.require("last_node_iterators_driven", 1000);
         ctx.require("non_last_node_iterators_driven", 1000);
